@@ -222,4 +222,7 @@ func (f *Filter) ResetResponseVerifications() {
 	if tresv, ok := f.tresmod.(verify.ResponseVerifier); ok {
 		tresv.ResetResponseVerifications()
 	}
+	if fresv, ok := f.fresmod.(verify.ResponseVerifier); ok {
+		fresv.ResetResponseVerifications()
+	}
 }
